@@ -39,7 +39,9 @@ static int op_findconf(int argc, char **argv, FILE *out) {
     struct list *confs = list_create(), *saved_cl = clconfs, *saved_srv = srvconfs;
     struct clsrvconf *cur = NULL, *res;
     struct sockaddr_storage ss;
-    int type, serverp, fam, la, port, i, idx = -1, n = 0, bad = 0;
+    int type, serverp, fam, la, port, i, idx = -1, n = 0, bad = 0, npend = 0;
+    struct hostportres *pend_hp[64];
+    char *pend_tok[64];
     uint8_t *a;
     struct list_node *e;
     if (argc < 5)
@@ -79,6 +81,15 @@ static int op_findconf(int argc, char **argv, FILE *out) {
             hp[1] = NULL;
             if (!addhostport(&cur->hostports, hp, "1812", 1))
                 bad = 1;
+        } else if (argv[i][0] == 'A' && cur && cur->hostports && npend < 64) {
+            /* A<fam>:<addrhex>:<port>: one more resolved address of the preceding host entry (a name with several addresses) */
+            struct list_node *ln = list_first(cur->hostports);
+            while (ln && list_next(ln))
+                ln = list_next(ln);
+            if (!ln)
+                return 0;
+            pend_hp[npend] = (struct hostportres *)ln->data;
+            pend_tok[npend++] = argv[i] + 1;
         } else
             return 0;
     }
@@ -86,6 +97,30 @@ static int op_findconf(int argc, char **argv, FILE *out) {
         cur = (struct clsrvconf *)e->data;
         if (cur->hostports && !resolvehostports(cur->hostports, AF_UNSPEC, SOCK_DGRAM))
             bad = 1;
+    }
+    for (i = 0; i < npend && !bad; i++) {
+        struct addrinfo hints, *more = NULL, *tail;
+        char txt[INET6_ADDRSTRLEN], portbuf[16];
+        int afam = atoi(pend_tok[i]), alen = 0;
+        char *c1 = strchr(pend_tok[i], ':'), *c2 = c1 ? strchr(c1 + 1, ':') : NULL;
+        uint8_t *ab;
+        if (!c2)
+            return 0;
+        *c2 = 0;
+        ab = hx(c1 + 1, &alen);
+        *c2 = ':';
+        if (!ab || alen != (afam == 4 ? 4 : 16) || !inet_ntop(afam == 4 ? AF_INET : AF_INET6, ab, txt, sizeof(txt)))
+            return 0;
+        free(ab);
+        snprintf(portbuf, sizeof(portbuf), "%d", atoi(c2 + 1));
+        memset(&hints, 0, sizeof(hints));
+        hints.ai_socktype = SOCK_DGRAM;
+        hints.ai_flags = AI_NUMERICHOST;
+        if (getaddrinfo(txt, portbuf, &hints, &more) || !pend_hp[i]->addrinfo)
+            return 0;
+        for (tail = pend_hp[i]->addrinfo; tail->ai_next; tail = tail->ai_next)
+            ;
+        tail->ai_next = more;
     }
     if (bad)
         fputs("cfgerr", out);
